@@ -144,6 +144,10 @@ def _extent_cases(tier):
             out.append(dict(layout=list(lay), shape="any", wmax=3))
             for b in (2, 3):
                 out.append(dict(layout=list(lay), shape="fixed", b=b, wmax=b + 1))
+        # chromosomes as long as the int32 coordinate columns allow (bin width 10^9, 6*10^8): a rounding or tolerance rule in the
+        # coordinate -> bin arithmetic that is harmless on small numbers shows one base pair off a bin edge here
+        out.append(dict(layout=[2], shape="fixed", b=10**9, wmax=10**8))
+        out.append(dict(layout=[1, 3], shape="fixed", b=6 * 10**8, wmax=3 * 10**8))
     else:
         for lay in layouts(3, 5):
             if len(lay) == 3 and sum(lay) > 4:
@@ -151,6 +155,9 @@ def _extent_cases(tier):
             out.append(dict(layout=list(lay), shape="any", wmax=3))
             for b in (1, 2, 3, 4, 5, 8):
                 out.append(dict(layout=list(lay), shape="fixed", b=b, wmax=b + 2))
+        out.append(dict(layout=[2], shape="fixed", b=10**9, wmax=10**9 + 1))
+        out.append(dict(layout=[1, 3], shape="fixed", b=6 * 10**8, wmax=3 * 10**8))
+        out.append(dict(layout=[2, 2], shape="fixed", b=10**9, wmax=10**8))
     return out
 
 
